@@ -18,5 +18,8 @@ CONSTANTS
   KEYV <- MCH_KEYV
   NameCaseSigned = TRUE
   CacheRule = "required"
+  CfgMin = 0
+  CfgMax = 99
+  Deviation = "none"
 INVARIANTS NotCachedSecure
 CHECK_DEADLOCK FALSE
